@@ -289,6 +289,58 @@ func c13Check(m c13Model, filter string, includeSel string) engine.Result {
 				res.Violations = append(res.Violations, engine.V("merge-"+mf.name, "edge-extra", "merged edge %s -> %s is not the image of any relation", e.From, e.To))
 			}
 		}
+		// the merged graph as `coca arch -H` / `-P` draws it: every merged node once, every merged edge drawn
+		mdot := "di" + mg.ToMapDot(func(string) bool { return true }).String()
+		mpaths, medges, err := clusterPaths(mdot)
+		if err != nil {
+			res.Violations = append(res.Violations, engine.V("merge-"+mf.name+"-dot", "not-well-formed", "DOT of the merged graph does not parse: %v\n%s", err, mdot))
+			continue
+		}
+		mshown := map[string]int{}
+		for _, p := range mpaths {
+			mshown[p]++
+		}
+		var mshownList []string
+		for p := range mshown {
+			mshownList = append(mshownList, p)
+		}
+		sort.Strings(mshownList)
+		for k := range mg.NodeList {
+			// a merged node whose path is a proper prefix of another merged node's path (package a next to
+			// package a.b) is drawn as a cluster only; the statement does not say how that case is shown
+			inner := false
+			for o := range mg.NodeList {
+				inner = inner || strings.HasPrefix(o, k+".")
+			}
+			if mshown[k] > 1 || (mshown[k] != 1 && !inner) {
+				res.Violations = append(res.Violations, engine.V("merge-"+mf.name+"-dot", "node-count", "merged node %q is displayed %d times (displayed: %v)", k, mshown[k], mshownList))
+			}
+		}
+		for p := range mshown {
+			if _, ok := mg.NodeList[p]; !ok {
+				res.Violations = append(res.Violations, engine.V("merge-"+mf.name+"-dot", "unknown-node", "displayed node %q is not a merged node", p))
+			}
+		}
+		mdrawn := map[Edge]bool{}
+		for _, e := range medges {
+			f, okf := mpaths[e.From]
+			t, okt := mpaths[e.To]
+			if !okf || !okt {
+				res.Violations = append(res.Violations, engine.V("merge-"+mf.name+"-dot", "edge-to-undisplayed", "edge %s -> %s of the merged DOT does not join two displayed nodes", e.From, e.To))
+				continue
+			}
+			mdrawn[Edge{f, t}] = true
+		}
+		for e := range mgot {
+			if e.From != e.To && mshown[e.From] == 1 && mshown[e.To] == 1 && !mdrawn[e] {
+				res.Violations = append(res.Violations, engine.V("merge-"+mf.name+"-dot", "edge-missing", "merged edge %s -> %s is not drawn (drawn: %v)", e.From, e.To, sortedEdges(mdrawn)))
+			}
+		}
+		for e := range mdrawn {
+			if !mgot[e] {
+				res.Violations = append(res.Violations, engine.V("merge-"+mf.name+"-dot", "edge-extra", "drawn edge %s -> %s is not a merged relation", e.From, e.To))
+			}
+		}
 	}
 	// DOT
 	include := func(k string) bool { return strings.Contains(k, filter) }
